@@ -62,6 +62,12 @@ func (h *PortMappingHandler) OpenHostports(podFullName string, randomPortMapping
 
 	if len(ports) != 0 {
 		h.Lock()
+		// the pod may be set up again before its former sandbox is torn down, don't leak the ports opened for that one
+		for hp, socket := range h.podPortMap[podFullName] {
+			if err := socket.Close(); err != nil {
+				glog.Errorf("Cannot clean up hostport %d for pod %s: %v", hp.port, podFullName, err)
+			}
+		}
 		h.podPortMap[podFullName] = ports
 		h.Unlock()
 	}
